@@ -982,6 +982,16 @@ func callBuiltin(caller *frame, callpos token.Pos, fn *ssa.Builtin, args []value
 			return arg0
 		}
 		// append([]T, ...[]T) []T
+		if R != nil {
+			if st, ok := fn.Type().(*types.Signature).Params().At(0).Type().Underlying().(*types.Slice); ok {
+				raceSlice(caller, args[1].([]value), st.Elem(), false)
+				a0 := args[0].([]value)
+				if n := len(a0) + len(args[1].([]value)); n <= cap(a0) {
+					// appended in place: the spare capacity is written
+					raceSlice(caller, a0[len(a0):n], st.Elem(), true)
+				}
+			}
+		}
 		return append(args[0].([]value), args[1].([]value)...)
 
 	case "copy": // copy([]T, []T) int or copy([]byte, string) int
@@ -990,6 +1000,17 @@ func callBuiltin(caller *frame, callpos token.Pos, fn *ssa.Builtin, args []value
 			params := fn.Type().(*types.Signature).Params()
 			src = conv(params.At(0).Type(), params.At(1).Type(), src)
 		}
+		if R != nil {
+			if st, ok := fn.Type().(*types.Signature).Params().At(0).Type().Underlying().(*types.Slice); ok {
+				d, s := args[0].([]value), src.([]value)
+				n := len(d)
+				if len(s) < n {
+					n = len(s)
+				}
+				raceSlice(caller, s[:n], st.Elem(), false)
+				raceSlice(caller, d[:n], st.Elem(), true)
+			}
+		}
 		return copy(args[0].([]value), src.([]value))
 
 	case "close": // close(chan T)
@@ -997,6 +1018,7 @@ func callBuiltin(caller *frame, callpos token.Pos, fn *ssa.Builtin, args []value
 		return nil
 
 	case "delete": // delete(map[K]value, K)
+		raceMap(caller, args[0].(*omap), true)
 		args[0].(*omap).delete(args[1])
 		return nil
 
@@ -1026,6 +1048,7 @@ func callBuiltin(caller *frame, callpos token.Pos, fn *ssa.Builtin, args []value
 		case []value:
 			return len(x)
 		case *omap:
+			raceMap(caller, x, false)
 			return x.len()
 		case *channel:
 			if x == nil {
